@@ -18,6 +18,7 @@ pub mod vm;
 
 #[cfg(feature = "vo_bit")]
 pub mod c08_vobit;
+pub mod c10_alloc;
 pub mod c17_forwarding;
 pub mod c18_bits;
 pub mod c20_side;
@@ -44,6 +45,7 @@ pub fn replay_table() -> Vec<(&'static str, fn(&mut Src))> {
     let mut v: Vec<(&'static str, fn(&mut Src))> = Vec::new();
     #[cfg(feature = "vo_bit")]
     v.extend_from_slice(c08_vobit::TABLE);
+    v.extend_from_slice(c10_alloc::TABLE);
     v.extend_from_slice(c17_forwarding::TABLE);
     v.extend_from_slice(c18_bits::TABLE);
     v.extend_from_slice(c20_side::TABLE);
